@@ -135,6 +135,7 @@ class Eval:
         self.loop = None
         self.written = []            # serializer: symbolic byte counts
         self.members = {}            # this->x_ / output->x_ current values
+        self.assigned = set()        # members of *this / *output assigned on some path
         self.member_prefix = None
         self.line = 0
         self.pad_start = {}
@@ -823,7 +824,12 @@ class Eval:
                 flds[name] = self.parent_member(base, name, n)
             if name not in flds:
                 flds[name] = self.initial_member(base, name, n)
-            return Ref(lambda: flds[name], lambda v: flds.__setitem__(name, v), name, "member")
+
+            def setm(v, flds=flds, name=name, own=(flds is self.members)):
+                flds[name] = v
+                if own:
+                    self.assigned.add(name)
+            return Ref(lambda: flds[name], setm, name, "member")
         self.obl("unmodelled", False, f"member {name} of {type(base).__name__}")
         return Opaque(name)
 
@@ -903,6 +909,9 @@ class Eval:
             return c.negate() if c is not None else Opaque("not")
         if op == "&":
             v = self.expr(inner)
+            if isinstance(v, Ref) and v.kind == "member" and inner.get("kind") == "MemberExpr" \
+                    and (inner.get("inner") or [{}])[0].get("kind") == "CXXThisExpr":
+                self.assigned.add(v.name)       # &member handed to a callee that fills it (T::Parse(span, &member_))
             return v.get() if isinstance(v, Ref) else v
         if op == "*":
             v = self.expr(inner)
